@@ -188,7 +188,12 @@ def text_cid(width, sheet):
 def read_direct(path, sheet):
     """("rows", list) | ("DataFormatError", error) | ("exc", error)"""
     try:
-        return "rows", list(rowio.ods_rows(path, sheet))
+        rows = []
+        for row in rowio.ods_rows(path, sheet):
+            # the caller keeps a copy and overwrites what it was given: that must not show in a row delivered later
+            rows.append(list(row))
+            row[:] = ["<overwritten by the consumer>"]
+        return "rows", rows
     except errors.DataFormatError as error:
         return "DataFormatError", error
     except Exception as error:
